@@ -68,15 +68,21 @@ def r1(ctx):
     ctx.need(len(classes) >= 20, 'ds9 classes', f'only {len(classes)} classes in the reader table')
     shifts, lexf = _pixel_lexer_shift(ctx)
     par, make, lexers, raw, mod = ds9.reader_funcs(m)
-    raw_tables = {}
-    for st in stmts_of(raw.node):
-        if isinstance(st, ast.Assign) and isinstance(st.targets[0], ast.Name) and st.targets[0].id in (
-                'supported_shapes', 'supported_frames'):
-            try:
-                raw_tables[st.targets[0].id] = ast.literal_eval(st.value)
-            except Exception:
-                pass
-    ctx.need('supported_shapes' in raw_tables, raw.qualname, 'supported_shapes list not found')
+    accepted = {}
+
+    def reader_accepts(name):
+        """the raw parser, partially evaluated on a two-line document, yields one record of that shape."""
+        if name not in accepted:
+            out = Evaluator(m).run(raw, [Const(f'fk5\n{name}(1,2,3)')], {})
+            ok = len(out.returns) == 1 and isinstance(out.returns[0][1], Tup) and len(out.returns[0][1].items) == 1 \
+                and isinstance(out.returns[0][1].items[0], Obj) \
+                and isinstance(out.returns[0][1].items[0].fields.get('shape'), Const) \
+                and out.returns[0][1].items[0].fields['shape'].v == name
+            if not ok and len(out.returns) == 1 and not isinstance(out.returns[0][1], Tup):
+                raise AnalysisError('C09.R1', raw.qualname, f'raw parser not reducible on a constant document: '
+                                    f'{show(out.returns[0][1], 160)}')
+            accepted[name] = ok
+        return accepted[name]
     for ci, rt, shape_key in sorted(classes, key=lambda x: x[0].name):
         construct = f'{ci.name}'
         ev, wfi, out = ds9.eval_writer(m, ci)
@@ -90,7 +96,7 @@ def r1(ctx):
         except AnalysisError as exc:
             raise
         probs = []
-        if name not in raw_tables['supported_shapes']:
+        if not reader_accepts(name):
             probs.append(f'emitted shape name "{name}" is not a shape the reader supports')
         fields = ds9.template_fields(template)
         want = [p for p in m.params_of(ci) if p != 'text']
@@ -328,11 +334,20 @@ def r3(ctx):
             inv = x
     ctx.need(inv is not None, wfi.qualname, f'writer frame table not found in {show(fr, 160)}')
     par, make, lexers, raw, mod = ds9.reader_funcs(m)
-    sup = None
-    for st in stmts_of(raw.node):
-        if isinstance(st, ast.Assign) and norm(st.targets[0]) == 'supported_frames':
-            sup = ast.literal_eval(st.value)
-    ctx.need(sup is not None, raw.qualname, 'supported_frames not found')
+    class _Sup:
+        """frame keywords the raw parser accepts: decided by partial evaluation on `<keyword>\\ncircle(1,2,3)`."""
+        cache = {}
+
+        def __contains__(self, kw):
+            if kw not in self.cache:
+                out = Evaluator(m).run(raw, [Const(f'{kw}\ncircle(1,2,3)')], {})
+                v = out.returns[0][1] if len(out.returns) == 1 else None
+                if not isinstance(v, Tup):
+                    raise AnalysisError('C09.R3', raw.qualname, 'raw parser not reducible on a constant document')
+                self.cache[kw] = len(v.items) == 1 and isinstance(v.items[0], Obj) and \
+                    isinstance(v.items[0].fields.get('frame'), Const) and v.items[0].fields['frame'].v == kw
+            return self.cache[kw]
+    sup = _Sup()
     for astro in sorted(set(table.values())):
         v = inv.get(astro)
         d = v.v if isinstance(v, Const) else None
